@@ -179,8 +179,7 @@ impl SubscriptionActor {
                 let _ = responder.send(result);
             }
             SubscriptionRequest::Delete { responder } => {
-                let result = self.delete().await;
-                let _ = responder.send(result);
+                self.delete(responder);
             }
             SubscriptionRequest::GetStats { responder } => {
                 let result = self.get_stats();
@@ -275,40 +274,51 @@ impl SubscriptionActor {
     }
 
     /// Marks the subscription as deleted. Further requests will be no-ops.
-    async fn delete(&mut self) -> Result<(), DeleteError> {
+    ///
+    /// The rest of the deletion involves the topic. The topic may itself be waiting for
+    /// room in this actor's mailbox (while publishing), so the actor must not wait for the
+    /// topic: the deletion is completed by a separate task, and the actor keeps draining
+    /// its mailbox in the meantime.
+    fn delete(&mut self, responder: oneshot::Sender<Result<(), DeleteError>>) {
         if self.deleted {
-            return Ok(());
+            // A deletion is already in progress: respond once it has completed.
+            let deleted = self.observer.deleted();
+            tokio::spawn(async move {
+                deleted.await;
+                let _ = responder.send(Ok(()));
+            });
+            return;
         }
 
         self.deleted = true;
-        #[cfg(deltio_verif)]
-        crate::verif::point("subscription.delete.marked");
-
-        // If the topic is still around, remove ourselves from it's list of subscriptions.
-        if let Some(topic) = self.topic.upgrade() {
-            topic
-                .remove_subscription(self.info.name.clone())
-                .await
-                .map_err(|e| match e {
-                    RemoveSubscriptionError::Closed => DeleteError::Closed,
-                })?;
-        }
-
-        #[cfg(deltio_verif)]
-        crate::verif::point("subscription.delete.detached");
-        self.delegate.delete(&self.info.name);
-        #[cfg(deltio_verif)]
-        crate::verif::point("subscription.delete.unregistered");
-        self.observer.notify_deleted();
-        #[cfg(deltio_verif)]
-        crate::verif::point("subscription.delete.notified");
         self.outstanding.clear();
         self.backlog.clear();
 
-        // Unregister the subscription from push.
-        self.push_registry.set(self.info.name.clone(), None);
+        let topic = self.topic.upgrade();
+        let name = self.info.name.clone();
+        let delegate = self.delegate.clone();
+        let observer = Arc::clone(&self.observer);
+        let push_registry = self.push_registry.clone();
+        tokio::spawn(async move {
+            // If the topic is still around, remove ourselves from it's list of subscriptions.
+            if let Some(topic) = topic {
+                if let Err(RemoveSubscriptionError::Closed) =
+                    topic.remove_subscription(name.clone()).await
+                {
+                    let _ = responder.send(Err(DeleteError::Closed));
+                    return;
+                }
+            }
 
-        Ok(())
+            delegate.delete(&name);
+
+            // Unregister the subscription from push.
+            push_registry.set(name, None);
+
+            // This also stops the actor.
+            observer.notify_deleted();
+            let _ = responder.send(Ok(()));
+        });
     }
 
     /// Gets the stats for the subscription.
